@@ -9,6 +9,8 @@ Oracle: equal normalized bindings <=> equal arg_hash, over all enumerated presen
 near-miss pairs; body receives the normalized values; real hit/miss behaviour.
 """
 import datetime
+
+import dateutil.tz
 import hashlib
 import itertools
 import json
@@ -72,6 +74,7 @@ def leaves():
         datetime.datetime(2020, 1, 1, 12, 30, 15, 123456), datetime.datetime(2020, 1, 1, tzinfo=tz.utc),
         datetime.datetime(2020, 1, 1, 5, 6, 7, 8, tzinfo=tz(td(hours=-3, minutes=-30))),
         datetime.datetime(2020, 6, 1, tzinfo=tz(td(hours=5, minutes=45))),
+        datetime.datetime(2021, 1, 14, 12, 0, tzinfo=dateutil.tz.tzrange("CET", 3600, "CEST", 7200)),     # a zone with DST rules
         c04fns.target, c04fns.target.partial(1), c04fns.target.partial(y="k"), c04fns.target.partial(1, y=[1, {"z": None}]),
         [], {}, [[]], {"": 0},
     ]
@@ -277,7 +280,8 @@ def main(chk, replay=None):
                     viol("an equivalent presentation missed the memoized result", {"clause": "shares-result"}, fn=name)
                 if n1 >= 1:
                     got = c04fns.REC.calls[0][1]
-                    if canon_sexpr(got) != canon_sexpr(ArgumentHasher.normalize(binding)):
+                    if canon_sexpr(got) != canon_sexpr(ArgumentHasher.normalize(binding)) or \
+                            received_form(got) != received_form(independent_normalize(binding)):
                         viol("the body did not receive the normalized bound values", {"clause": "body-receives-normalized"},
                              fn=name, got=repr(got)[:300])
                 chk.count("real-calls")
@@ -297,6 +301,28 @@ def main(chk, replay=None):
                 mk = "O ( " + parts[3] + ")" if len(parts) > 3 else "O ( )"
                 if mk != ek:
                     chk.correspondence_break("effective-kwargs", dict(fn=name, presentation=repr(pr)[:300], model=mk, real=ek))
+        # partial applications are values: deriving another partial from one must not change what the first one binds
+        if True:
+            from twosigma.memento.reference import FunctionReferenceWithArguments as FWA
+            for first, second in (({"b": 1}, {"c": 2}), ({"b": 1}, {"b": 9}), ({"a": [1], "c": "x"}, {"c": "y", "b": 0})):
+                p1 = c04fns.s3.partial(**first)
+                rest = {k: 7 for k in ("a", "b", "c") if k not in first}
+                k1 = FWA(p1.fn_reference(), (), dict(rest), None)
+                h1, e1 = k1.arg_hash, canon_sexpr(k1.effective_kwargs)
+                p2 = p1.partial(**second)                       # noqa: F841  (only its creation matters)
+                k1b = FWA(p1.fn_reference(), (), dict(rest), None)
+                k1c = FWA(c04fns.s3.fn_reference(), (), dict(first, **rest), None)
+                if (k1b.arg_hash, canon_sexpr(k1b.effective_kwargs)) != (h1, e1) or k1c.arg_hash != h1:
+                    viol("deriving a second partial changed what the first partial binds", {"clause": "presentation"},
+                         first=first, second=second, before=e1, after=canon_sexpr(k1b.effective_kwargs))
+                c04fns.REC.calls.clear()
+                p1(**rest)
+                got = c04fns.REC.calls[0][1] if c04fns.REC.calls else None
+                if got is not None and canon_sexpr(got) != canon_sexpr(dict(first, **rest)):
+                    viol("the body did not receive the normalized bound values", {"clause": "body-receives-normalized"}, fn="s3",
+                         got=repr(got)[:200], expected=repr(dict(first, **rest)))
+                c04fns.s3.forget_all()
+            chk.count("chained-partial-scenarios")
         # malformed stream: both sides reject
         for bad in [(1, 2), {1, 2}, {1: 2}, b"x", object(), complex(1, 2), [b"x"], {"a": (1,)}]:
             try:
@@ -306,6 +332,30 @@ def main(chk, replay=None):
                 chk.count("malformed-rejected")
     finally:
         m.Environment.set(orig_env)
+
+
+def received_form(v):
+    """what the body can observe of a value: like canon_sexpr, plus — for datetimes — how the value behaves under date
+    arithmetic (a zone with daylight-saving rules and the fixed offset it denotes at one instant are different values)"""
+    if isinstance(v, dict):
+        return "O ( " + "".join(hx(k) + " " + received_form(v[k]) + " " for k in sorted(v)) + ")"
+    if isinstance(v, (list, tuple)):
+        return "L ( " + "".join(received_form(x) + " " for x in v) + ")"
+    if isinstance(v, datetime.datetime):
+        return "M" + hx(v.isoformat()) + "+" + hx((v + datetime.timedelta(days=190)).isoformat())
+    return to_sexpr(v)
+
+
+def independent_normalize(v):
+    """the normalized value by the documented rule, without the library: values are what their canonical encoding denotes
+    (a datetime is the instant + offset of its ISO-8601 text)"""
+    if isinstance(v, dict):
+        return {k: independent_normalize(x) for k, x in v.items()}
+    if isinstance(v, (list, tuple)):
+        return [independent_normalize(x) for x in v]
+    if isinstance(v, datetime.datetime):
+        return datetime.datetime.fromisoformat(v.isoformat())
+    return v
 
 
 def canon_sexpr(v):
